@@ -13,7 +13,9 @@
 //                                 3 the second of two trailer-tagged counting storages, 4 cocls::reusable_storage_mtsafe
 //   op [2 kind datum]             0 value datum, 1 exception test_exc{datum}, 2 promise dropped
 //   op [3 ckind cdatum (spec)]    converter: 0 returns src+cdatum, 1 throws test_exc{cdatum}; spec 0 member fn, 1 free fn,
-//                                 2 free fn with context, 3 member fn taking the promise
+//                                 2 free fn with context, 3 member fn taking the promise; with spec 3 also ckind 2 resolves the
+//                                 promise with the exception, 3 declines (touches nothing), 4 moves the promise to a holder
+//                                 from which thread 2 resolves it later
 //   op [4 b]                      b=1: the user callback of callback_await throws after it has done its work
 //   op [5 kind datum]             competing resolver on thread 2 (mode 2 only): value / exception / p(drop)
 //   op [9 k k k ...]              schedule
@@ -273,18 +275,38 @@ struct CfObj {
 struct ConvCtx {
     Ctx *c;
     long ck, cd;
+    std::optional<promise<long>> held;   // behaviour 4: the converter forwards the promise to whoever resolves it later
+    long held_value = 0;
     long work(long src) {
-        if (ck) {
+        if (ck == 1) {
             c->ev(32, c->step(), src, 2, cd);
             throw test_exc{cd};
         }
         c->ev(32, c->step(), src, 1, src + cd);
         return src + cd;
     }
+    // the promise-passing form decides itself what happens to the promise
+    suspend_point<void> workp(long src, promise<long> &p) {
+        switch (ck) {
+            case 2:
+                c->ev(32, c->step(), src, 2, cd);
+                return p(std::make_exception_ptr(test_exc{cd}));
+            case 3:
+                c->ev(32, c->step(), src, 0, 0);   // declines: the promise is left alone
+                return {};
+            case 4:
+                c->ev(32, c->step(), src, 1, src + cd);
+                held_value = src + cd;
+                held.emplace(std::move(p));
+                return {};
+            default:
+                return p(work(src));
+        }
+    }
     long conv(counted &src) { return work(src.v); }
     long conv0() { return work(0); }
-    suspend_point<void> convp(counted &src, promise<long> &p) { return p(work(src.v)); }
-    suspend_point<void> convp0(promise<long> &p) { return p(work(0)); }
+    suspend_point<void> convp(counted &src, promise<long> &p) { return workp(src.v, p); }
+    suspend_point<void> convp0(promise<long> &p) { return workp(0, p); }
 };
 static ConvCtx *g_conv = nullptr;
 static long conv_free(counted &src) { return g_conv->work(src.v); }
@@ -310,7 +332,9 @@ struct Cfg {
     bool valid() const {
         if (ad < 0 || ad > 4 || mode < 0 || mode > 3 || stor < 0 || stor > 4) return false;
         if (stor != 0 && ad > 1) return false;
-        if (k < 0 || k > 2 || ck < 0 || ck > 1 || cbthrow < 0 || cbthrow > 1) return false;
+        if (k < 0 || k > 2 || ck < 0 || ck > 4 || cbthrow < 0 || cbthrow > 1) return false;
+        if (ck >= 2 && spec != 3) return false;
+        if (ck == 4 && k2 >= 0) return false;
         if (spec < 0 || spec > 3 || (isvoid && (spec == 1 || spec == 2))) return false;
         if (ad == 1 && mode < 2) return false;
         if (k2 < -1 || k2 > 2 || (k2 >= 0 && mode != 2)) return false;
@@ -332,7 +356,7 @@ static Cfg parse(const vh::Case &cs, bool isvoid) {
             if (op.size() == 3) { g.k = op[1]; g.d = op[2]; }
         } else if (op[0] == 3 && !h3) {
             h3 = true;
-            if (op.size() == 3) { g.ck = op[1]; g.cd = op[2]; }
+            if (op.size() == 3) { g.ck = (op[1] == 0 || op[1] == 1) ? op[1] : -1; g.cd = op[2]; }
             else if (op.size() == 4) { g.ck = op[1]; g.cd = op[2]; g.spec = op[3]; }
             else g.ck = -1;
         } else if (op[0] == 4 && !h4) {
@@ -397,7 +421,7 @@ static bool run_case(const vh::Case &cs, bool seq, bool coro) {
         if (g.stor == 2) stor2.emplace();
         if (g.stor == 3) { stor3a.emplace(); stor3b.emplace(); ctx.ts_a = &*stor3a; ctx.ts_b = &*stor3b; }
         if (g.stor == 4) stor4.emplace();
-        ConvCtx cctx{&ctx, g.ck, g.cd};
+        ConvCtx cctx{&ctx, g.ck, g.cd, {}, 0};
         g_conv = &cctx;
         CfObj<HT> cfobj{&ctx};
         using Fc0 = std::conditional_t<Tr::isvoid, future_conv<&ConvCtx::conv0>, future_conv<&ConvCtx::conv>>;
@@ -406,7 +430,11 @@ static bool run_case(const vh::Case &cs, bool seq, bool coro) {
         std::optional<future_conv<&conv_free>> fc1;
         std::optional<future_conv<&conv_free_ctx>> fc2;
         std::optional<Fc3> fc3;
-        std::optional<OuterHold> outer;
+        // the outer future lives in zeroed raw storage so that its readiness can be observed while it is still being constructed
+        alignas(OuterHold) static char obuf[sizeof(OuterHold)];
+        std::memset(obuf, 0, sizeof(obuf));
+        OuterHold *outer = nullptr;
+        auto outer_ready_now = [&] { return reinterpret_cast<OuterHold *>(obuf)->f._awaiter.load() == &awaiter::disabled; };
         std::optional<co_awaiter<future<long>>> outer_aw;
         std::optional<call_fn_future_awaiter<&CfObj<HT>::done>> cfa;
 
@@ -453,7 +481,7 @@ static bool run_case(const vh::Case &cs, bool seq, bool coro) {
         };
         std::pair<Ctx *, future<long> *> ocb_arg{&ctx, nullptr};
         auto reg_conv = [&](auto &fc) {
-            outer.emplace([&] { return fc << mk; });
+            outer = new (obuf) OuterHold([&] { return fc << mk; });
             ocb_arg.second = &outer->f;
             outer_aw.emplace(outer->f);
             if (outer_aw->await_ready() || !outer_aw->await_suspend(&OuterCb::fn, &ocb_arg)) OuterCb::fn(nullptr, &ocb_arg);
@@ -518,6 +546,13 @@ static bool run_case(const vh::Case &cs, bool seq, bool coro) {
             in_mode([&] { ret2 = set_on(hold->p, g.k2, g.d2, cell2); });
             ctx.thread_end();
         };
+        bool repark = g.ad == 3 && g.ck == 4;
+        auto t2late = [&] {   // resolves the promise the converter forwarded (if it did)
+            warmup();
+            ctl::block_until("xwait", [&] { return cctx.held.has_value() || outer_ready_now(); });
+            in_mode([&] { if (cctx.held) (*cctx.held)(cctx.held_value); });
+            ctx.thread_end();
+        };
 
         if (seq) {
             // one fresh thread per case: its thread-local ready queue starts empty (libstdc++'s deque allocates a new node
@@ -527,6 +562,7 @@ static bool run_case(const vh::Case &cs, bool seq, bool coro) {
                 t0();
                 if (g.mode == 2) t1();
                 if (g.k2 >= 0) t2();
+                if (repark) t2late();
                 vh::t_count = false;
             });
             th.join();
@@ -534,7 +570,9 @@ static bool run_case(const vh::Case &cs, bool seq, bool coro) {
             std::vector<std::function<void()>> fns;
             fns.push_back(t0);
             if (g.mode == 2) fns.push_back(t1);
+            else if (repark) fns.push_back([] {});   // keeps the late resolver at thread id 2
             if (g.k2 >= 0) fns.push_back(t2);
+            if (repark) fns.push_back(t2late);
             ctl::Controller c;
             c.run(std::move(fns), g.sched);
             vh::t_count = false;
@@ -554,7 +592,8 @@ static bool run_case(const vh::Case &cs, bool seq, bool coro) {
         long n1 = vh::g_news.load(), d1 = vh::g_deletes.load();
         vh::t_count = true;   // anything the adapters and the storages still own dies here, counted
         outer_aw.reset();
-        outer.reset();
+        if (outer) outer->~OuterHold();
+        cctx.held.reset();
         fc0.reset();
         fc1.reset();
         fc2.reset();
